@@ -47,6 +47,10 @@ Definition group (f : bytes -> Z -> cls) (a : list val) : val :=
   | _ => vbad
   end.
 
+(* what Properties/C05Tot.v states of every op below *)
+Definition never_bad (f : list val -> val) : Prop :=
+  forall a, f a <> reply CPanic /\ f a <> reply CDiverge.
+
 (* ---- argument preparation, as in total.go ---- *)
 (* totPkt: var p packet.Packet; copy(p[:], b) *)
 Definition pkt_of (b : bytes) : bytes := firstn 188 (b ++ repeat 0 188).
@@ -199,9 +203,12 @@ Definition g_ebp_read (b : bytes) (n : Z) : cls :=
   cl (Ebp.ReadEncoderBoundaryPoint true b).
 (* scte.new: NewSCTE35; all getters read struct fields; CanClose / Equal are total (Model/SegDesc.v);
    UpdateData (total, Model/ScteEnc.v) and NewSCTE35 again on 0 :: out.  Not modelled: String(), and the state
-   tracker calls (NewState, ProcessDescriptor, Open) at the end of the group. *)
+   tracker calls (NewState, ProcessDescriptor, Open) at the end of the group.
+   `out` is a Go []byte: its elements are bytes by type.  The encoder model writes `byte(x)` as an explicit mod only
+   where the value can exceed 255 for a normal object; `map w8` restores the type discipline for every object (it is the
+   identity whenever the byte-range lemmas of the encoder hold: Proofs/ScteEncBytes.v, C09). *)
 Definition g_scte_new (b : bytes) (n : Z) : cls :=
-  on_ok (Scte.new_scte35 b) (fun s => cl (Scte.new_scte35 (0 :: fst (ScteEnc.update_data s)))).
+  on_ok (Scte.new_scte35 b) (fun s => cl (Scte.new_scte35 (0 :: map w8 (fst (ScteEnc.update_data s))))).
 
 (* ------------------------------------------------------------------ streams *)
 (* bytes.NewReader(b) as a read script: Read delivers what fits of the remaining bytes, then io.EOF *)
